@@ -288,7 +288,7 @@ def rule_read(ctx):
     ctx.floor("C14.READ", "element emitters", n, 10)
 
 
-def _dispatch_eval(ctx, raised):
+def _dispatch_eval(ctx, raised, vetoed=False):
     """Attach A, B (plain) and C (coroutine function) for Write and D (plain) for Change on a definition object produced by
     its real constructor, raise one event of class <raised> through the real raise_event, and report what was invoked:
     [(handler, 'direct' | 'task', called with the event?)] in order - or a string describing why it is undecided."""
@@ -316,7 +316,8 @@ def _dispatch_eval(ctx, raised):
         for n_, et in (("<fn:A>", "Write"), ("<fn:B>", "Write"), ("<co:C>", "Write"), ("<fn:D>", "Change")):
             it.run_function(Fn(f, d), [Cls(classes[et]), cbs[n_]], {})
         holder = Obj(src, {defattr: d}, label="source")
-        ev = Obj(classes[raised], {}, label="event")
+        # the event as a handler may have left it: vetoed or not - dispatch must not depend on it
+        ev = Obj(classes[raised], {"prevent_default": Const(vetoed), "element": Obj(None, label="<element>"), "__closed__": Const(True)}, label="event")
         it.ev = ev
         del it.events[:]
         return it.run_function(Fn(rz, holder), [ev], {})
@@ -349,13 +350,13 @@ def rule_dispatch(ctx):
         "Read": [],
     }
     bad = False
-    for raised, exp in want.items():
-        got = _dispatch_eval(ctx, raised)
+    for raised, exp, vetoed in [(r_, e_, v_) for r_, e_ in want.items() for v_ in (False, True)]:
+        got = _dispatch_eval(ctx, raised, vetoed)
         if isinstance(got, str):
             ctx.undecided("C14.DISPATCH", f.short, f"raising a {raised} event is not decided by constant evaluation ({got})", fi=f)
             bad = True
         elif got != exp:
-            ctx.violated("C14.DISPATCH", f.short, f"with A, B (plain), C (coroutine) attached for Write and D for Change, raising a {raised} invokes {got}, expected {exp}: every handler of the event's class exactly once, in order, coroutine functions as tasks, nobody else", fi=f, text=f"dispatch:{raised}", witness=raised)
+            ctx.violated("C14.DISPATCH", f.short, f"with A, B (plain), C (coroutine) attached for Write and D for Change, raising a {raised} (vetoed={vetoed}) invokes {got}, expected {exp}: every handler of the event's class exactly once, in order, coroutine functions as tasks, nobody else", fi=f, text=f"dispatch:{raised}:{vetoed}", witness=raised)
             bad = True
     if not bad:
         ctx.holds("C14.DISPATCH", f.short, "handlers of the event's class: all invoked once, in order; task for coroutine functions, direct call otherwise; none for other classes", fi=f)
